@@ -1609,13 +1609,15 @@ func runC19(e *env) {
 		c19Replay(e)
 		return
 	}
+	// the render half first: the list of recorded violations is capped, and a defect that shows in both halves (positions that
+	// are not byte offsets into the text as given) is best reported with a rendering that names the wrong line
 	t0 := time.Now()
-	c19ParseHalf(e, 60*e.scale)
-	t1 := time.Now()
 	cases := c19RenderCases(e, 150*e.scale)
 	c19RunRenders(e, cases)
 	c19Duplicates(e, 6*e.scale)
-	e.res.Note("timing: parse half %.1fs, render half %.1fs, %d workers", t1.Sub(t0).Seconds(), time.Since(t1).Seconds(), c19Workers())
+	t1 := time.Now()
+	c19ParseHalf(e, 60*e.scale)
+	e.res.Note("timing: render half %.1fs, parse half %.1fs, %d workers", t1.Sub(t0).Seconds(), time.Since(t1).Seconds(), c19Workers())
 }
 
 func c19Replay(e *env) {
